@@ -105,7 +105,7 @@ def summarize(x, depth=0):
     seen = {}
 
     def obj(o, d):
-        if isinstance(o, (list, dict, set, tuple)) or hasattr(o, "__dict__") and type(o).__module__ == "canary_objs":
+        if isinstance(o, (list, dict, set, tuple)) or hasattr(o, "__dict__") and type(o).__module__ in ("canary_objs", "canary_yobjs"):
             if id(o) in seen:
                 return ("ref", seen[id(o)])
             seen[id(o)] = len(seen)
